@@ -78,7 +78,7 @@ SpliceProv(n, repls) ==
 RECURSIVE TextOf(_)
 TextOf(t) ==
   CASE t.k = "raw" -> IF t.sub \in {"buf", "rawbuf"} THEN Lossy(t.b) ELSE t.b
-    [] t.k \in {"orig", "sms", "default", "script"} -> t.b
+    [] t.k \in {"orig", "sms", "default", "script", "yield"} -> t.b
     [] t.k = "concat" ->
          LET ch == Children(t)
          IN Concat([i \in 1..Len(ch) |-> TextOf(ch[i])])
@@ -90,7 +90,7 @@ TextOf(t) ==
 RECURSIVE BufOf(_)
 BufOf(t) ==
   CASE t.k = "raw" -> t.b
-    [] t.k \in {"orig", "sms", "default", "script"} -> t.b
+    [] t.k \in {"orig", "sms", "default", "script", "yield"} -> t.b
     [] t.k = "concat" ->
          LET ch == Children(t)
          IN Concat([i \in 1..Len(ch) |-> BufOf(ch[i])])
@@ -152,6 +152,7 @@ AsciiConsistent(t) ==
     [] t.k = "default" ->
          IsAscii(t.b) /\ (t.map = <<>> \/ MapConsistent(t.map[1], t.b))
     [] t.k = "script" -> IsAscii(t.b)
+    [] t.k = "yield" -> IsAscii(t.b)
     [] t.k = "concat" ->
          LET ch == Children(t) IN \A i \in 1..Len(ch) : AsciiConsistent(ch[i])
     [] t.k = "replace" ->
